@@ -9,6 +9,7 @@ Reference values (notes that MusicXML cannot keep in their voice, sounding notes
 come from the spec alone (mc/c03_model.py); the file is also read by mc/c03_reader.py.
 """
 import io
+import os
 
 from mc.core import CaseResult, Space, run_check, guarded
 from mc import c03_gen as G
@@ -44,6 +45,32 @@ def _nontrivial(spec, data):
                                    b"<barline", b"<sound")) or data.count(b"<attributes>") > 1 or data.count(b"<part ") > 1
 
 
+def _save_via_file(save_musicxml, score, mode):
+    import tempfile
+
+    with tempfile.TemporaryDirectory(prefix="c03-") as d:
+        path = os.path.join(d, "s.musicxml")
+        if mode == "path":
+            r = save_musicxml(score, path)
+        else:
+            with open(path, "wb") as f:
+                r = save_musicxml(score, f)
+        if r is not None:
+            raise AssertionError("save_musicxml(score, out) returned %r instead of None" % type(r).__name__)
+        with open(path, "rb") as f:
+            return f.read()
+
+
+def _load_via_path(load_musicxml, data):
+    import tempfile
+
+    with tempfile.TemporaryDirectory(prefix="c03-") as d:
+        path = os.path.join(d, "l.musicxml")
+        with open(path, "wb") as f:
+            f.write(data)
+        return load_musicxml(path)
+
+
 def eval_case(case):
     from partitura.io.exportmusicxml import save_musicxml
     from partitura.io.importmusicxml import load_musicxml
@@ -53,11 +80,15 @@ def eval_case(case):
 
     res = CaseResult(states=1, transitions=0, traces=1)
     spec = G.expand(case)
-    score = ir.build_score(spec)
+    score = M.build_score(spec)
     parts = M.iter_parts(spec)
 
     res.transitions += 1
-    ok, data = guarded(res, "export-total", save_musicxml, score)
+    mode = case.get("io")
+    if mode is None:
+        ok, data = guarded(res, "export-total", save_musicxml, score)
+    else:
+        ok, data = guarded(res, "export-total", _save_via_file, save_musicxml, score, mode)
     if not ok:
         res.outcome = "export-exception"
         return res
@@ -88,7 +119,10 @@ def eval_case(case):
 
     # (1) load(save(s)) == s on the listed attributes
     res.transitions += 1
-    ok, score2 = guarded(res, "import-total", load_musicxml, io.BytesIO(data))
+    if mode == "path":
+        ok, score2 = guarded(res, "import-total", _load_via_path, load_musicxml, data)
+    else:
+        ok, score2 = guarded(res, "import-total", load_musicxml, io.BytesIO(data))
     if not ok:
         res.outcome = "import-exception"
         return res
@@ -157,10 +191,53 @@ def spaces(tier, seed):
     sp.append(Space("B3-grace", lambda: G.gen_B_grace(False), True,
                     "cores of 1-2 notes (span x voice{1,2}), grace run of length 1-2, plain or slashed, before either note"))
     sp.append(Space(bname("B3-grace-double"), blk(lambda: G.gen_B_grace(True)), True, btxt + "cores of 2 notes, a grace run before both"))
+    L1 = ([(0, 4)], [[0, 2, 4]])
+    L2 = ([(0, 2), (2, 4)], [[0, 1, 4]])
+    sp.append(Space("C1-decoration-1note", lambda: (c for L in (L1, L2) for c in G.gen_C_single(L, 1, 1)), True,
+                    "every single decoration instance (articulations, fingering, stem, note fermata, slur, dynamics p/sfz, words, "
+                    "tempo word, tempo mark, wedge +/-, words with dashes, barline fermata) at every note / grid time / time interval of "
+                    "every 1-note core (span x voice{1,2}) of one 2/4 measure and of two 1/4 measures"))
+    sp.append(Space(bname("C1-decoration-2notes"), blk(lambda: (c for L in (L1, L2) for c in G.gen_C_single(L, 2, 2))), True,
+                    btxt + "the same over every 2-note core"))
+    sp.append(Space(bname("C2-decoration-pairs"), blk(G.gen_C_pairs), True, btxt + "all pairs of decoration instances on three fixed cores"))
+    sp.append(Space("C3-tuplets", lambda: G.gen_C_tuplets(False), True, "six triplet eighths (divisions 3): every bracket and every pair of brackets"))
+    sp.append(Space(bname("C3-tuplets-2voices"), blk(lambda: G.gen_C_tuplets(True)), True, btxt + "C3 with two quarters in voice 2"))
+    sp.append(Space(bname("C4-slur-pairs"), blk(G.gen_C_slurpairs), True, btxt + "all pairs and triples of slurs over five notes in two voices"))
+    sp.append(Space(bname("D1-divisions-change"), blk(G.gen_D_divisions), True,
+                    btxt + "divisions change q0->q1 (all ordered pairs from 1..4) in the middle of a 2/4 measure or at the barline of two 1/4 "
+                    "measures; all cores of <=2 events not crossing the change"))
+    sp.append(Space(bname("D2-key-time-clef-change"), blk(G.gen_D_attributes), True,
+                    btxt + "key/time/clef changes at every grid position of two 2/4 measures, singly and in pairs, three cores"))
+    sp.append(Space("E-parts-and-groups", G.gen_E_structure, True, "all forests of <=3 parts with groups nested <=2 deep, two attribute variants"))
+    sp.append(Space("F-repeats-endings", G.gen_F_repeats, True, "three 1/4 measures: disjoint repeats x (no ending | one ending | endings 1+2), two cores"))
+    sp.append(Space("G-file-io", G.gen_G_fileio, True, "a sample of E and C2 scores written to a path / a binary file object and loaded from a path"))
+    if not q:
+        sp.append(Space("A1-core-1measure-4", lambda: G.gen_A(one, 4, staff_is_voice=True, nmin=4), True,
+                        "one 2/4 measure, all sets of 4 events: span x voice{1,2} (staff=voice) x {note,rest}"))
+    else:
+        sp.append(Space("A1-core-1measure-4-block", G.stride(lambda: G.gen_A(one, 4, staff_is_voice=True, nmin=4), 32, seed % 32), True,
+                        "block %d of 32 (index stride) of all sets of 4 events: span x voice{1,2} (staff=voice) x {note,rest}" % (seed % 32)))
+    # inputs of the proposed known findings: explored only once known_findings.json carries the open entry
+    # (until then they would be reported as violations of a defect that is already documented in C03-NOTES.md)
+    from mc.core import load_known_findings
+
+    known = {e.get("trigger") for e in load_known_findings(PID)}
+    if "divisions_change_without_time_point" in known:
+        sp.append(Space(bname("X1-divisions-change-without-time-point"), blk(lambda: G.gen_D_divisions(True)), True,
+                        btxt + "D1 cases in which nothing starts or ends at the time of the divisions change"))
+    if "right_barline_fermata_before_next_measure" in known:
+        sp.append(Space("X2-right-barline-fermata-inner", G.gen_X_right_fermata, True,
+                        "fermata on the right barline of a measure that is followed by another measure"))
+    if "plain_words_object" in known:
+        sp.append(Space("X3-words-objects", G.gen_X_words, True, "a score.Words object at every grid time of every 1-note core"))
     return sp
 
 
-TRIGGERS = {}
+TRIGGERS = {
+    "divisions_change_without_time_point": lambda case, v: G.has_divisions_change_without_point(case),
+    "right_barline_fermata_before_next_measure": lambda case, v: G.has_inner_right_fermata(case),
+    "plain_words_object": lambda case, v: G.has_words_object(case),
+}
 
 if __name__ == "__main__":
     import checks.c03 as _m
